@@ -57,6 +57,33 @@ M = [  # (name, file, old, new, property, --only, substring expected in a VIOLAT
     ('timelimits-reset-noop', 'mystic/termination.py', '        start[0] = timer()\n    delta', '        pass\n    delta', 'C10', 'TimeLimits', 'one-clock-reading'),
     ('stop-without-finalize', 'mystic/abstract_solver.py', "            if self.Terminated(): # then cleanup/finalize\n                self.Finalize()\n", "", 'C05', 'C05/Step', 'stopped-solver-is-finalized'),
     ('monitor-slice-reversed', 'mystic/monitors.py', '            m._y = self._y[y]', '            m._y = self._x[y]', 'C20', 'Monitor.slice', 'holds-exactly-the-sliced-records'),
+    ('collapse_at-strict-tolerance', 'mystic/collapse.py', 'params = np.ptp(params, axis=0) <= tolerance', 'params = np.ptp(params, axis=0) < tolerance', 'C11', 'C11/collapse_at', 'within-tolerance'),
+    ('collapse_at-target-min', 'mystic/collapse.py', 'else: params = abs(params - target).max(axis=0) <= tolerance', 'else: params = abs(params - target).min(axis=0) <= tolerance', 'C11', 'C11/collapse_at', 'within-tolerance'),
+    ('collapse_as-index-mask-needs-both', 'mystic/collapse.py', 'return lambda x: (int(x[0]) in mask or int(x[1]) in mask)', 'return lambda x: (int(x[0]) in mask and int(x[1]) in mask)', 'C11', 'C11/collapse_as', 'masked-pairs'),
+    ('collapse_as-offset-uses-min', 'mystic/collapse.py', '        distances = np.ptp(distances, axis=0) <= tolerance', '        distances = distances.min(axis=0) <= tolerance', 'C11', 'C11/collapse_as', 'within-tolerance'),
+    ('pairwise-includes-diagonal', 'mystic/tools.py', 'idx = np.triu_indices(x.shape[-1],k=1)', 'idx = np.triu_indices(x.shape[-1],k=0)', 'C11', 'C11/collapse_as', 'nothing-but-parameter-pairs'),
+    ('collapse_weight-set-mask-ignored', 'mystic/collapse.py', '        selector = lambda x: x - mask\n    elif type(mask) is dict', '        selector = lambda x: x\n    elif type(mask) is dict', 'C11', 'C11/collapse_weight', 'masked-weights'),
+    ('collapse_position-dict-mask-one-orientation', 'mystic/collapse.py', "j - _symmetric((mask[i] if i in mask else set()))", "j - (mask[i] if i in mask else set())", 'C11', 'C11/collapse_position', 'masked-position-pairs'),
+    ('collapse-condition-drops-mask', 'mystic/termination.py', '        collapsed = ct.collapse_at(inst._stepmon, **kwds)', '        collapsed = ct.collapse_at(inst._stepmon, tolerance=tolerance, generations=generations, target=target)', 'C11', 'termination.CollapseAt', 'own-settings'),
+    ('collapse-cost-constraint-dropped', 'mystic/abstract_solver.py', '        conditions.extend(conditions_)', '        pass', 'C11', 'routing', 'chained-around'),
+    ('bounded-nearest-is-farthest', 'mystic/constraints.py', 'seq[at] = _clip(seq_at, *(b[abs(seq_at.reshape(-1,1)-b).argmin(axis=1)] for b in bounds))', 'seq[at] = _clip(seq_at, *(b[abs(seq_at.reshape(-1,1)-b).argmax(axis=1)] for b in bounds))', 'C16', 'clip-to-nearest', 'outer-end'),
+    ('bounded-upper-end-exclusive', 'mystic/constraints.py', '(lo <= seq)&(seq <= hi) for (lo,hi) in bounds.T', '(lo <= seq)&(seq < hi) for (lo,hi) in bounds.T', 'C16', 'redraw-inside', 'entries-inside-an-interval-unchanged'),
+    ('impose_bounds-not-chained', 'mystic/constraints.py', 'xp = bounded(xp, bounds[i], i, clip[0], nearest[0])', 'xp = bounded(x, bounds[i], i, clip[0], nearest[0])', 'C16', 'constraints.impose_bounds', 'chained'),
+    ('boundsconstrain-min-twice', 'mystic/constraints.py', '        cons = dict((i,j) for (i,j) in enumerate(zip(min, max)))', '        cons = dict((i,j) for (i,j) in enumerate(zip(min, min)))', 'C02', 'boundsconstrain', 'interval-i'),
+    ('boundsconstraints-and-for-or', 'mystic/abstract_solver.py', '        if not self._useStrictRange or ignore:', '        if not self._useStrictRange and ignore:', 'C02', '_boundsconstraints', 'identity-when'),
+    ('discrete-tie-goes-up', 'mystic/constraints.py', '        if hi - xi < xi - lo: ', '        if hi - xi <= xi - lo: ', 'C16', 'constraints.discrete', 'lower-member-on-a-tie'),
+    ('suppress-inclusive', 'mystic/tools.py', '    mask = abs(x) < tol', '    mask = abs(x) <= tol', 'C16', 'suppressed', 'tools.suppressed'),
+    ('insert_missing-unsorted', 'mystic/tools.py', '    for (k,v) in sorted(_mask.items()):', '    for (k,v) in _mask.items():', 'C16', 'tools.masked', 'masked-values-inserted'),
+    ('lagrange-clip-with-unscaled-k', 'mystic/penalty.py', '                beta += 2.*_k*max(-beta/(2.*_k), stored(i))', '                beta += 2.*_k*max(-beta/(2.*k), stored(i))', 'C15', 'multiplier-recurrence', 'documented-augmented-lagrangian'),
+    ('nm-options-not-written-back', 'mystic/scipy_optimize.py', "        self.adaptive = settings['adaptive']", "        pass", 'C06', 'NelderMead._process_inputs', 'adaptive-as-given'),
+    ('powell-direc-keeps-dtype', 'mystic/scipy_optimize.py', '                direc = asarray(direc, dtype=float)', '                direc = asarray(direc)', 'C08', 'direction-set', 'float-array'),
+    ('load-replaces', 'mystic/math/discrete.py', '    self.extend( unflatten(params, pts) )', '    self[:] = unflatten(params, pts)', 'C19', 'load/appends', 'piecewise-load'),
+    ('compound-single-member-unwrapped', 'mystic/termination.py', "    if isinstance(args, When) or not getattr(args, '__len__', None): args = [args]\n    #XXX: check if every arg in args has __module__ == self.__module__ ?\n    return tuple.__new__(self, args)\n\n  def __repr__(self):\n    return \"And%s\"",
+     "    if not getattr(args, '__len__', None): args = [args]\n    #XXX: check if every arg in args has __module__ == self.__module__ ?\n    return tuple.__new__(self, args)\n\n  def __repr__(self):\n    return \"And%s\"", 'C10', 'compound-construction', 'members-are-exactly'),
+    ('evaluations-from-monitor', 'mystic/abstract_solver.py', '        return self._fcalls[0] #len(self._evalmon) or self._fcalls[0]', '        return len(self._evalmon) or self._fcalls[0]', 'C07', 'C05/SetEvaluationLimits', 'own-call-counter'),
+    ('genmon-null-drops-history', 'mystic/abstract_solver.py', "            self._stepmon = Monitor()  #XXX: don't allow Null\n            self._stepmon.prepend(current)", "            self._stepmon = Monitor()  #XXX: don't allow Null\n            self._stepmon.prepend(monitor)", 'C05', 'None-Null-or-the-same-monitor', 'every-record-collected-so-far'),
+    ('ensemble-dump-before-reduce', 'mystic/abstract_ensemble_solver.py', "        self._AbstractEnsembleSolver__update_allSolvers(results)\n        del results\n        # update state from bestSolver\n        self._AbstractEnsembleSolver__update_state()\n\n        # log any termination messages",
+     "        self._AbstractEnsembleSolver__update_allSolvers(results)\n        del results\n        self._AbstractSolver__save_state(force=True)\n        # update state from bestSolver\n        self._AbstractEnsembleSolver__update_state()\n\n        # log any termination messages", 'C06', '_Solve/member-hand-off', 'forced-restart-dump'),
     ('or_-aliased-fixed-point-test', 'mystic/constraints.py', '                ci = next(_constraints)(x[-n][:])', '                ci = next(_constraints)(x[-n])', 'C17', 'or_/in-place', 'fixed-point-of-some-member'),
 ]
 
